@@ -20,6 +20,7 @@ func runC17(c *Ctx) {
 	c.Rule("P2 truncation-is-an-error: in the container parser every branch taken when a declared chunk size exceeds the remaining bytes ends in a return of a non-nil error (no clamp, break or continue)")
 	c.Rule("P3 success-implies-frame: every success return of the methods of container.Parser reachable from parse is reached only through a block that appends to Parser.frames or through a branch whose condition tests len(Parser.frames) or the animation flag")
 	c.Rule("P4 single reader: Decode, DecodeConfig and GetFeatures hand the input bytes to container.NewParser only")
+	c.Rule("P6 short reads are not hidden: a pre-sized buffer filled by io.ReadFull is returned only together with ReadFull's own error value (or re-sliced to the count read)")
 	c.Rule("P5 input untouched: the container parser never appends to, stores into, copies over or clears its input slice or anything re-sliced from it")
 	c.NotCovered("behaviour of the VP8/VP8L/ALPH decoders on a payload that is shorter than its own internal structure needs (bit-reader end-of-stream handling): value-level, needs execution")
 	c.NotCovered("files cut inside the image chunk whose remaining bytes still satisfy the container checks are rejected by P1 only because the declared chunk size no longer fits; prefixes cut exactly at a chunk boundary after the image chunk parse to the same frames")
@@ -39,7 +40,90 @@ func runC17(c *Ctx) {
 		c17SuccessFrame(c, p)
 		c17SingleReader(c, p)
 		c17InputUntouched(c, p)
+		c17ShortReads(c, p)
 	}
+}
+
+// P6 short reads are not hidden: a buffer of a size chosen before reading (make([]byte, n)) that is
+// filled with io.ReadFull is handed on as the file's bytes only together with ReadFull's own error
+// value, or re-sliced to the count read. Replacing the error (for example turning io.ErrUnexpectedEOF
+// into nil) hands a zero-extended file of the announced size to the parser, whose length checks then
+// cannot see the truncation.
+func c17ShortReads(c *Ctx, p *Program) {
+	root := p.SSAPkg("")
+	if root == nil {
+		c.AnchorMissing("P6-short-read", "root package")
+		return
+	}
+	n := 0
+	for _, fn := range p.SrcFuncs() {
+		if fn.Pkg != root || fn.Blocks == nil {
+			continue
+		}
+		for _, b := range fn.Blocks {
+			for _, ins := range b.Instrs {
+				call, ok := ins.(*ssa.Call)
+				if !ok {
+					continue
+				}
+				cal := call.Call.StaticCallee()
+				if cal == nil || cal.Pkg == nil || cal.Pkg.Pkg.Path() != "io" || cal.Name() != "ReadFull" || len(call.Call.Args) != 2 {
+					continue
+				}
+				// the buffer: a make([]byte, n) (possibly re-sliced)
+				buf := call.Call.Args[1]
+				base := buf
+				for {
+					if sl, ok := base.(*ssa.Slice); ok {
+						base = sl.X
+						continue
+					}
+					break
+				}
+				if _, isMake := base.(*ssa.MakeSlice); !isMake {
+					continue // fixed-size header arrays etc. are not returned as the file
+				}
+				n++
+				key := fmt.Sprintf("%s:ReadFull#%d", fn.Name(), n)
+				var errVal, cnt ssa.Value
+				for _, u := range *call.Referrers() {
+					if ex, ok := u.(*ssa.Extract); ok {
+						if ex.Index == 1 {
+							errVal = ex
+						} else {
+							cnt = ex
+						}
+					}
+				}
+				bad := ""
+				for _, rb := range fn.Blocks {
+					ret, ok := rb.Instrs[len(rb.Instrs)-1].(*ssa.Return)
+					if !ok || len(ret.Results) != 2 || !call.Block().Dominates(rb) {
+						continue
+					}
+					if ret.Results[0] != base {
+						// re-sliced to the count read?
+						if sl, ok := ret.Results[0].(*ssa.Slice); ok && sl.X == base && sl.High != nil && sl.High == cnt {
+							continue
+						}
+						if k, isK := ret.Results[0].(*ssa.Const); isK && k.IsNil() {
+							continue
+						}
+						if ret.Results[0] != base {
+							continue
+						}
+					}
+					if ret.Results[1] != errVal {
+						bad = p.Pos(ret.Pos())
+					}
+				}
+				c.Func(FnName(fn))
+				c.Check(bad == "", "P6-short-read", key, p.Pos(call.Pos()), "the pre-sized buffer is returned only together with ReadFull's own error",
+					fmt.Sprintf("%s fills a buffer whose size was chosen before reading and returns it at %s with an error value that is not ReadFull's own: after a short read the caller receives a zero-extended buffer of the announced size and no error, so a truncated file can parse", fn.Name(), bad))
+			}
+		}
+	}
+	c.Floor("P6-short-read", n, 1)
 }
 
 // P5: the parsers decide on the bytes they were given and nothing else: the input slice of
